@@ -78,8 +78,11 @@ func newFuncWarcRecordOption(f func(*warcRecordOptions)) *funcWarcRecordOption {
 	}
 }
 
-func defaultWarcRecordOptions() warcRecordOptions {
+func init() {
 	uuid.EnableRandPool()
+}
+
+func defaultWarcRecordOptions() warcRecordOptions {
 	return warcRecordOptions{
 		warcVersion:              V1_1,
 		errSyntax:                ErrWarn,
